@@ -307,6 +307,11 @@ func acCookie(v string, tr *traceWriter) {
 		for _, ck := range w.Result().Cookies() { // what a client would send back
 			r2.AddCookie(ck)
 		}
+		if len(v)%2 == 1 {
+			// ... as the SECOND of two Cookie header fields (HTTP/2 clients and proxies split them), after an unrelated one
+			own := r2.Header.Get("Cookie")
+			r2.Header["Cookie"] = []string{"other=1; theme=dark", own}
+		}
 		f.ServeHTTP(httptest.NewRecorder(), r2)
 	}()
 	tr.emit(map[string]interface{}{"ev": "cookie", "value": encBytes(v), "got": encBytes(got), "panicked": panicked})
